@@ -10,7 +10,7 @@ RULE = (
     "Generated (Hypothesis): histories as for C20 (1..40 quick / 1..120 thorough commands; observers that unsubscribe "
     "themselves / another observer / subscribe a new observer inside their k-th callback) on a BehaviorSubject whose "
     "initial value is drawn from the full value domain (None weighted up, all falsy values). Enumerated: every command "
-    "sequence of length <= 4 with initial value None (quick) / <= 5 with initial values None and 1 (thorough) over an 11-symbol alphabet. "
+    "sequence of length <= 4 with initial value None (quick) / <= 5 with initial values None and 1 (thorough) over a 12-symbol alphabet. "
     "Oracle: explicit model = C20 model + current value (set when on_next is *called*, before delivery); a subscriber on "
     "a live subject first receives the current value, then every later notification; after termination only the terminal; "
     "compared after EVERY command (received lists, exceptions, length of subject.observers). Non-trivial: some subscriber "
@@ -20,7 +20,8 @@ RULE = (
     "truth value is False (it defines __len__ == 0). det (Engine DET, vlib/det.py: line-level yield points, cooperative locks, subject created after patching): thread A subject.subscribe(recorder) || thread B a fixed list of 1-3 emitting calls, 0/1 observer subscribed beforehand, either thread scheduled first; every schedule with <=1 (quick) / <=2 (thorough) preemptions is run; oracle = linearizability against the same sequential model: the racing subscriber's list must equal the model's list for SOME position of its subscribe in the emitter's call sequence (so its first notification is the value current at registration and nothing earlier follows), earlier subscribers see the sequential outcome, no deadlock/exception; non-trivial = calls overlapped and >=2 distinct outcomes observed. raising: histories whose observers are plain except one whose k-th handler raises; checked afterwards: observers served before "
     "it, every later notification to every subscribed observer, terminal / current value for later subscribers; left open: "
     "re-raise to the caller, the rest of that one delivery, the raiser itself; non-trivial there = a notification was delivered in a "
-    "later command than the raise. Distinct = distinct case JSON."
+    "later command than the raise. Histories also terminate through the public "
+    "Observer.fail(e) (no effect on a terminated/disposed subject): same terminal clauses as on_error. Distinct = distinct case JSON."
 )
 ASSUMPTIONS = [
     "as C20 (public subscribe, subscription-order delivery, unsubscribe inside subscribe() effective at its return, non-raising callbacks outside the raising check)",
@@ -39,6 +40,7 @@ _ALPHABET = [
     ["error", "e1"],
     ["completed"],
     ["dispose"],
+    ["fail", "e2"],
 ]
 
 
